@@ -121,8 +121,10 @@ def run_shard(shard, ctx):
                 last = max(t + ln for t, ln in phr) + 2
                 notes = list(range(last + 1))
                 expected = [[n, next((i for i, (t, ln) in enumerate(phr) if t <= n < t + ln), None)] for n in notes]
-                for pl in ("before", "merged"):
-                    body = body_for(phr, notes, pl)
+                for pl in ("before", "merged") + (("padded-trailing", "padded-both") if header in ("ExpertSingle", "HardDrums") else ()):
+                    body = body_for(phr, notes, "merged" if pl.startswith("padded") else pl)
+                    if pl.startswith("padded"):  # blank padding around the lines (promised by C07)
+                        body = [("\t " if pl == "padded-both" else "") + ln + (" " if i % 2 else "\t") for i, ln in enumerate(body)]
                     text = mk(tracks={header: body})
                     got = e1.run_probe(probe, text)
                     ctx.node()
